@@ -21,7 +21,8 @@ CLAIMED["C04"] = dict(
          "power-of-two change of variables, restore_sol o transform_sol = id, box exactness, internal Lagrangian "
          "gradient = scaled user gradient (forces the dual / bound-dual exponents), slack columns carry -y_i, "
          "internal constraints row by row, start slacks = projection onto [l,u]; model tied to "
-         "Transformation(...).trans_problem by exact correspondence on every run. Partial: exactness is over Q "
+         "Transformation(...).trans_problem by exact correspondence on every run; the validating evaluator (Eval.v) hands on "
+         "exactly what a callback returned, for every stored pattern (unit evaluator). Partial: exactness is over Q "
          "(IEEE exactness of ldexp absent overflow is not proved).",
     note=BASE_NOTE + "ldexp is modelled as multiplication by 2^k in Q; overflow/underflow not modelled.",
     technique="Coq proof: algebraic identities over Q lifted to lists (ring/field/lra) + vm_compute differential correspondence",
